@@ -105,28 +105,35 @@ theorem surrogates_rejected (c : Nat) (h : 0xd800 ≤ c ∧ c ≤ 0xdfff) (b : B
 
 /-! ## UTF-8 → UTF-16 → UTF-8 -/
 
-/-- **round trip of well-formed text** (one region; any text of scalar values not starting with U+FEFF):
-    the UTF-8 → UTF-16LE model yields BOM + UTF-16, the UTF-16LE → UTF-8 model gives the original bytes back,
-    and the `encode` hook of the UTF-8 format leaves them alone.
+/-- **round trip of any well-formed text** (one region): the UTF-8 → UTF-16LE model yields BOM + UTF-16, the UTF-16LE → UTF-8
+    model (as repaired: F19) followed by the `encode` hook of the UTF-8 format gives the original bytes back apart from ONE
+    leading byte-order mark - a U+FEFF character that follows the mark is kept.
     Fragmentation is covered by `utf8_utf16_roundtrip_any_fragmentation` below. -/
-theorem utf8_utf16_roundtrip_single_region (cs : List Nat) (hs : ∀ c ∈ cs, Utf8P.scalar c) (hne : cs ≠ [])
-    (hb : cs.head? ≠ some 0xfeff) :
-    ∃ us, Utf8P.toUtf16 [cs.flatMap Utf8P.enc] = .ok us 0 ∧
-      Utf16P.fromUtf16 false [Utf16P.bytesLE us] = .ok (cs.flatMap Utf8P.enc) 0 0 ∧
-      Utf16P.withoutBom (cs.flatMap Utf8P.enc) = cs.flatMap Utf8P.enc := by
-  obtain ⟨us, h1, h2⟩ := Utf16P.utf8_utf16_roundtrip_single cs hs hne hb
-  exact ⟨us, h1, h2, Utf16P.withoutBom_id cs hs hb⟩
+theorem utf8_utf16_roundtrip_single_region (cs : List Nat) (hs : ∀ c ∈ cs, Utf8P.scalar c) (hne : cs ≠ []) :
+    ∃ us out, Utf8P.toUtf16 [cs.flatMap Utf8P.enc] = .ok us 0 ∧
+      Utf16P.fromUtf16 false [Utf16P.bytesLE us] = .ok out 0 0 ∧
+      Utf16P.withoutBom out = (Utf8P.dropBom cs).flatMap Utf8P.enc :=
+  Utf16P.utf8_utf16_roundtrip_single cs hs hne
 
-/-- **round trip under any fragmentation**: however the UTF-8 text is cut into regions (position-shaped loop) and however the
-    resulting UTF-16 is cut into non-empty regions (the loop as written in the source), the original bytes come back -/
+/-- **round trip under any fragmentation**: however the resulting UTF-16 is cut into non-empty regions (the loop as written
+    in the source), the original bytes come back, apart from one leading byte-order mark -/
 theorem utf8_utf16_roundtrip_any_fragmentation (cs : List Nat) (hs : ∀ c ∈ cs, Utf8P.scalar c) (hne : cs ≠ [])
-    (hb : cs.head? ≠ some 0xfeff) (rs : List (List Nat)) (hrs : rs ≠ []) (hp : ∀ r ∈ rs, r ≠ []) :
-    ∃ us, Utf8P.toUtf16 [cs.flatMap Utf8P.enc] = .ok us 0 ∧
-      (rs.flatten = Utf16P.bytesLE us → Utf16E.conv (Utf16P.fromUtf16 false rs) = some (.ok (cs.flatMap Utf8P.enc) 0)) := by
-  obtain ⟨us, h1, h2⟩ := Utf16P.utf8_utf16_roundtrip_single cs hs hne hb
-  refine ⟨us, h1, fun hf => ?_⟩
+    (rs : List (List Nat)) (hrs : rs ≠ []) (hp : ∀ r ∈ rs, r ≠ []) :
+    ∃ us out, Utf8P.toUtf16 [cs.flatMap Utf8P.enc] = .ok us 0 ∧
+      Utf16P.withoutBom out = (Utf8P.dropBom cs).flatMap Utf8P.enc ∧
+      (rs.flatten = Utf16P.bytesLE us → Utf16E.conv (Utf16P.fromUtf16 false rs) = some (.ok out 0)) := by
+  obtain ⟨us, out, h1, h2, h3⟩ := Utf16P.utf8_utf16_roundtrip_single cs hs hne
+  refine ⟨us, out, h1, h3, fun hf => ?_⟩
   rw [Utf16E.fromUtf16_fragmentation_independent false rs hrs hp, hf, h2]
   rfl
+
+/-- F19 as found: the converter dropped the byte-order mark and the `encode` hook of the UTF-8 format dropped a leading mark
+    again - applied to BOM, U+FEFF, 'A' the two strips leave 'A' alone -/
+theorem F19_double_strip : Utf16P.withoutBom (Utf16P.withoutBom [0xef, 0xbb, 0xbf, 0xef, 0xbb, 0xbf, 0x41]) = [0x41] := by decide
+
+/-- F19 repaired, on the same text: the mark goes, the character stays -/
+theorem F19_fixed : ∃ out, Utf16P.fromUtf16 false [[0xff, 0xfe, 0xff, 0xfe, 0x41, 0x00]] = .ok out 0 0 ∧
+    Utf16P.withoutBom out = [0xef, 0xbb, 0xbf, 0x41] := ⟨[0xef, 0xbb, 0xbf, 0xef, 0xbb, 0xbf, 0x41], by decide, by decide⟩
 
 /-! ## a transform fails or returns data the inverse transform accepts — for ARBITRARY input -/
 
